@@ -464,16 +464,41 @@ pub fn run_check(prop: &str, tier: Tier, seed: u64) -> i32 {
         if reported.len() >= max_report {
             continue;
         }
-        let (run, v) = &list[0];
-        let trace = scenario::generate(prop, tier, seed, *run);
-        // confirm in a fresh process
-        let (v2, _) = verdict_of(prop, tier, seed, &trace);
-        let confirmed = v2.as_ref().map(|x| &x.class == class).unwrap_or(false);
-        if !confirmed {
-            eprintln!("harness error: violation {class} of run {run} did not reproduce in a fresh process");
+        // confirm in a fresh process; an engine with undefined behaviour in it (an unchecked conversion fed bad
+        // data) need not behave the same way twice, so several occurrences of the class are tried
+        let mut pick = None;
+        for (run, v) in list.iter().take(8) {
+            let trace = scenario::generate(prop, tier, seed, *run);
+            let (v2, _) = verdict_of(prop, tier, seed, &trace);
+            if v2.as_ref().map(|x| &x.class == class).unwrap_or(false) {
+                pick = Some((run, v, trace, v2));
+                break;
+            }
+        }
+        let Some((run, v, trace, v2)) = pick else {
+            if list.len() >= 3 {
+                // seen in at least three different runs of this sweep, never alone: reported, with the first
+                // run's unminimised trace, and marked as not reproducing
+                let (run, v) = &list[0];
+                let trace = scenario::generate(prop, tier, seed, *run);
+                let path = format!("{VERIF_DIR}/replays/{prop}-{}-{}.json", sanitize(class), &hash_name(&trace)[..8]);
+                let mut doc = serde_json::to_value(&trace).unwrap();
+                doc["violation"] = serde_json::to_value(v).unwrap();
+                doc["found_at"] = serde_json::json!({"seed": seed, "run": run, "tier": tier.name(), "occurrences_in_this_sweep": list.len(), "reproduces_in_a_fresh_process": false});
+                if write_json(&path, &doc).is_err() {
+                    eprintln!("harness error: cannot write {path}");
+                    return 2;
+                }
+                println!("violation class {class}: {} ({} runs, none of 8 reproduced in a fresh process: the engine does not behave the same way twice on these inputs); first run {run}: {}", v.kind, list.len(), v.detail);
+                violation_lines.push(format!("VIOLATION property={prop} replay={path}"));
+                reported.push(class.clone());
+                exit = 1;
+                continue;
+            }
+            eprintln!("harness error: violation {class} of run {} did not reproduce in a fresh process", list[0].0);
             crate::fsbox::cleanup_root();
             return 2;
-        }
+        };
         // minimise in a worker; fall back to the unminimised trace if that worker dies
         let mut min = trace.clone();
         if let Ok(mut w) = Worker::spawn(prop, tier, seed) {
